@@ -17,7 +17,7 @@
 (***************************************************************************)
 EXTENDS Typing, Json, IOUtils
 
-CONSTANT Stride
+CONSTANTS Stride, ScopeStride
 
 NoA == <<>>
 TS == [t |-> "string"]  TL == [t |-> "long"]  TB == [t |-> "bool"]
@@ -36,7 +36,8 @@ Schema ==
         shape |-> << Attr("name", TS, FALSE), Attr("age", TL, FALSE), Attr("opt", TL, TRUE), Attr("mgr", TEnt("User"), TRUE),
                      Attr("ip", TExt("ipaddr"), FALSE), Attr("d", TExt("decimal"), TRUE), Attr("t", TExt("datetime"), FALSE),
                      Attr("dur", TExt("duration"), FALSE), Attr("r", TRec(<<Attr("x", TL, FALSE), Attr("y", TS, TRUE)>>), FALSE),
-                     Attr("ss", TSetOf(TS), FALSE), Attr("flag", TB, FALSE) >>,
+                     Attr("ss", TSetOf(TS), FALSE), Attr("flag", TB, FALSE),
+                     Attr("__tag:t1", TL, TRUE) >>,     \* an attribute whose name reads like a tag capability
         tags |-> TL],
        [name |-> "Group", annos |-> NoA, parents |-> <<>>, shape |-> <<Attr("n", TL, FALSE)>>, tags |-> None],
        [name |-> "Doc", annos |-> NoA, parents |-> <<>>,
@@ -45,7 +46,10 @@ Schema ==
      actions |-> <<
        [name |-> "view", annos |-> NoA, parents |-> <<>>,
         applies |-> [t |-> "some", principals |-> <<Ref("User")>>, resources |-> <<Ref("Doc")>>,
-                     context |-> TRec(<<Attr("k", TL, FALSE), Attr("o", TS, TRUE), Attr("e", TEnt("User"), TRUE)>>)]],
+                     context |-> TRec(<<Attr("k", TL, FALSE), Attr("o", TS, TRUE), Attr("e", TEnt("User"), TRUE),
+                                       \* one attribute named "r.q" and the path r . q: the same text, different places
+                                       Attr("r.q", TRec(<<Attr("y", TS, TRUE)>>), FALSE),
+                                       Attr("r", TRec(<<Attr("q", TRec(<<Attr("y", TS, TRUE)>>), FALSE)>>), FALSE)>>)]],
        [name |-> "edit", annos |-> NoA, parents |-> <<[q |-> "", id |-> "all"]>>,
         applies |-> [t |-> "some", principals |-> <<Ref("User")>>, resources |-> <<Ref("Doc"), Ref("User")>>, context |-> None]],
        [name |-> "all", annos |-> NoA, parents |-> <<>>, applies |-> [t |-> "none"]] >>] >>]
@@ -59,10 +63,11 @@ URec(y) == [k |-> "rec", f |-> IF y THEN [x |-> VInt(3), y |-> VStr(<<121>>)] EL
 UAttrs(full) ==
   IF full THEN [name |-> VStr(<<97>>), age |-> VInt(30), opt |-> VInt(5), mgr |-> E("User", "u2"), ip |-> Ip, d |-> VDec(FromInt(15000)),
                 t |-> VDt(FromInt(0)), dur |-> VDur(FromInt(1000)), r |-> URec(TRUE), ss |-> [k |-> "set", els |-> <<VStr(<<97>>)>>], flag |-> VTrue]
-  ELSE [name |-> VStr(<<>>), age |-> VLong(MaxI64), ip |-> Ip, t |-> VDt(FromInt(0)), dur |-> VDur(FromInt(1)),
+  ELSE ("__tag:t1" :> VInt(1)) @@
+       [name |-> VStr(<<>>), age |-> VLong(MaxI64), ip |-> Ip, t |-> VDt(FromInt(0)), dur |-> VDur(FromInt(1)),
         r |-> URec(FALSE), ss |-> [k |-> "set", els |-> <<>>], flag |-> VFalse]
 U1 == [uid |-> E("User", "u1"), parents |-> <<E("Group", "g1")>>, attrs |-> UAttrs(TRUE), tags |-> << <<<<116, 49>>, VInt(1)>> >>]
-U2 == [uid |-> E("User", "u2"), parents |-> <<>>, attrs |-> UAttrs(FALSE), tags |-> <<>>]
+U2 == [uid |-> E("User", "u2"), parents |-> <<E("Group", "g1")>>, attrs |-> UAttrs(FALSE), tags |-> <<>>]
 G1 == [uid |-> E("Group", "g1"), parents |-> <<>>, attrs |-> [n |-> VInt(1)], tags |-> <<>>]
 D1 == [uid |-> E("Doc", "d1"), parents |-> <<>>, attrs |-> [owner |-> E("User", "u1"), labels |-> [k |-> "set", els |-> <<VStr(<<108>>)>>], opt |-> VStr(<<111>>),
                                                                r2 |-> [k |-> "rec", f |-> [x |-> VInt(1), y |-> VStr(<<121>>)]]],
@@ -72,7 +77,9 @@ AView == [uid |-> E("Action", "view"), parents |-> <<>>, attrs |-> <<>>, tags |-
 AEdit == [uid |-> E("Action", "edit"), parents |-> <<E("Action", "all")>>, attrs |-> <<>>, tags |-> <<>>]
 AAll == [uid |-> E("Action", "all"), parents |-> <<>>, attrs |-> <<>>, tags |-> <<>>]
 Stores == << <<U1, U2, G1, D1, D2, AView, AEdit, AAll>>, <<U2, D2, AView, AEdit, AAll>> >>
-CtxView == << VRec([k |-> VInt(1)]), VRec([k |-> VLong(MaxI64), o |-> VStr(<<115>>), e |-> E("User", "u1")]) >>
+YS == VRec([y |-> VStr(<<115>>)])
+CtxView == << VRec(("r.q" :> YS) @@ [k |-> VInt(1), r |-> VRec([q |-> EmptyRec])]),
+              VRec(("r.q" :> EmptyRec) @@ [k |-> VLong(MaxI64), o |-> VStr(<<115>>), e |-> E("User", "u1"), r |-> VRec([q |-> YS])]) >>
 SetToSeqT(S) == LET RECURSIVE F(_) F(T) == IF T = {} THEN <<>> ELSE LET x == CHOOSE y \in T : TRUE IN <<x>> \o F(T \ {x}) IN F(S)
 EnvsW ==
   LET view == { [p |-> p, a |-> E("Action", "view"), r |-> r, c |-> c, store |-> s] :
@@ -155,15 +162,81 @@ LubForms ==
      Bin("gt", Acc(ite(fl, P, Acc(R, "owner")), "age"), V(VInt(0))), Bin("gt", Acc(ite(fl, P, Acc(R, "owner")), "opt"), V(VInt(0))),
      Bin("eq", Acc(ite(fl, P, R), "opt"), V(VInt(0))), Bin("gt", Acc(ite(fl, P, R), "age"), V(VInt(0))),
      Bin("and", Has(ite(fl, pr, r2), "x"), Bin("gt", Acc(ite(fl, pr, r2), "x"), V(VInt(0)))) >>
+\* the identity of a capability: a guard on one place must not open another place that is merely SPELLED alike
+\* (the attribute "r.q" vs the path r . q; the attribute "__tag:t1" vs the tag t1), and must open its own place
+CapForms ==
+  LET dotted == Acc(C, "r.q")  path == Acc(Acc(C, "r"), "q")  s == Str(<<115>>)  one == V(VInt(1))  ta == "__tag:t1" IN
+  << Bin("and", Has(dotted, "y"), Bin("eq", Acc(path, "y"), s)), Bin("and", Has(path, "y"), Bin("eq", Acc(dotted, "y"), s)),
+     Bin("and", Has(dotted, "y"), Bin("eq", Acc(dotted, "y"), s)), Bin("and", Has(path, "y"), Bin("eq", Acc(path, "y"), s)),
+     Bin("and", Has(P, ta), Bin("eq", Bin("getTag", P, T1), one)), Bin("and", Bin("hasTag", P, T1), Bin("eq", Acc(P, ta), one)),
+     Bin("and", Has(P, ta), Bin("eq", Acc(P, ta), one)),
+     Bin("and", Has(C, "r.q"), Bin("eq", Acc(path, "y"), s)), Bin("and", Has(Acc(C, "r"), "q"), Bin("eq", Acc(dotted, "y"), s)) >>
+\* `in` with every shape of right-hand side (one entity, sets whose members have one or several entity types in
+\* either order, an attribute, an empty set) guarding an unsafe use: whatever `in` is typed as, the guarded
+\* expression must still be checked unless the test cannot be true
+InForms ==
+  LET g1 == V(E("Group", "g1"))  d1 == V(E("Doc", "d1"))  u1 == V(E("User", "u1"))  mgr == Acc(P, "mgr")
+      set(xs) == [op |-> "set", els |-> xs]
+      rhs == << g1, set(<<d1, g1>>), set(<<g1, d1>>), set(<<u1, g1>>), set(<<g1, u1>>), set(<<>>), set(<<g1>>), set(<<d1>>), d1,
+                R, Acc(R, "owner"), set(<<Acc(R, "owner"), g1>>), set(<<g1, g1>>), set(<<d1, u1, g1>>) >>
+      optUse == Bin("gt", Acc(P, "opt"), V(VInt(1)))
+      lhs == << P, Acc(R, "owner"), V(E("User", "u2")) >>
+  IN Flat([i \in DOMAIN rhs |-> Flat([j \in DOMAIN lhs |->
+        << Bin("and", Bin("in", lhs[j], rhs[i]), optUse), Bin("or", Bin("in", lhs[j], rhs[i]), optUse),
+           [op |-> "if", c |-> Bin("in", lhs[j], rhs[i]), t |-> optUse, e |-> V(VTrue)],
+           Bin("and", [op |-> "isIn", a |-> lhs[j], ty |-> "User", e |-> rhs[i]], optUse) >>])])
+\* `is`, `like`, entity references and action comparisons in every typing situation: known / unknown entity type,
+\* possible / impossible for the variable, string / non-string subject, unknown entity id of an enumerated or action type
+IsLikeForms ==
+  LET optUse == Bin("gt", Acc(P, "opt"), V(VInt(1)))  is(a, ty) == [op |-> "is", a |-> a, ty |-> ty]
+      subj == << P, R, Acc(R, "owner"), V(E("User", "u1")), V(E("Nosuch", "x")), Var("action"), Acc(P, "age") >>
+      tys == <<"User", "Doc", "Group", "Nosuch", "Action">>
+      likes == << Acc(P, "name"), Acc(P, "age"), Acc(R, "opt"), Str(<<97>>), P, Acc(C, "o") >>
+      act == Var("action") IN
+  Flat([i \in DOMAIN subj |-> Flat([t \in DOMAIN tys |->
+        << is(subj[i], tys[t]), Bin("and", is(subj[i], tys[t]), optUse), Bin("or", is(subj[i], tys[t]), optUse),
+           Bin("and", Un("not", is(subj[i], tys[t])), optUse) >>])])
+  \o Flat([i \in DOMAIN likes |-> << [op |-> "like", a |-> likes[i], pat |-> <<97, -1>>],
+                                       Bin("and", [op |-> "like", a |-> likes[i], pat |-> <<-1>>], optUse) >>])
+  \o << Bin("eq", act, V(E("Action", "view"))), Bin("eq", act, V(E("Action", "nosuch"))), Bin("and", Bin("eq", act, V(E("Action", "edit"))), optUse),
+        Bin("in", act, V(E("Action", "all"))), Bin("and", Bin("in", act, V(E("Action", "all"))), optUse),
+        Bin("in", act, [op |-> "set", els |-> <<V(E("Action", "view")), V(E("Action", "edit"))>>]),
+        Bin("and", Bin("in", act, [op |-> "set", els |-> <<V(E("Action", "edit")), V(E("Action", "all"))>>]), Bin("eq", Acc(C, "k"), V(VInt(1)))),
+        Bin("and", Bin("eq", act, V(E("Action", "view"))), Bin("eq", Acc(C, "k"), V(VInt(1)))),
+        Bin("or", Bin("eq", act, V(E("Action", "edit"))), Bin("eq", Acc(C, "k"), V(VInt(1)))),
+        Bin("eq", P, V(E("User", "nosuch"))), Bin("eq", R, V(E("Nosuch", "x"))), Bin("in", P, V(E("Nosuch", "x"))),
+        Bin("eq", Bin("getTag", P, [op |-> "if", c |-> V(VTrue), t |-> T1, e |-> Str(<<120>>)]), V(VInt(1))),
+        Bin("and", Bin("hasTag", P, [op |-> "if", c |-> V(VTrue), t |-> T1, e |-> Str(<<120>>)]), Bin("eq", Bin("getTag", P, T1), V(VInt(1)))),
+        Bin("and", Bin("hasTag", P, T1), Bin("eq", Bin("getTag", P, [op |-> "if", c |-> V(VFalse), t |-> Str(<<120>>), e |-> T1]), V(VInt(1)))),
+        Bin("and", Bin("hasTag", P, Acc(P, "name")), Bin("eq", Bin("getTag", P, Acc(P, "name")), V(VInt(1)))),
+        Bin("contains", [op |-> "set", els |-> <<V(VInt(1)), Str(<<97>>)>>], V(VInt(1))), Un("isEmpty", [op |-> "set", els |-> <<>>]),
+        Bin("eq", [op |-> "set", els |-> <<>>], [op |-> "set", els |-> <<V(VInt(1))>>]),
+        Bin("containsAll", [op |-> "set", els |-> <<P, R>>], [op |-> "set", els |-> <<P>>]) >>
+\* scope clauses of every form around conditions that rely on what the scope establishes
+ScopeP == << ScopeAll, ScopeEq(E("User", "u1")), ScopeIn(E("Group", "g1")), ScopeIs("User"), ScopeIsIn("User", E("Group", "g1")),
+             ScopeIs("Doc"), ScopeEq(E("Doc", "d1")), ScopeEq(E("Nosuch", "x")), ScopeIs("Nosuch"), ScopeIn(E("User", "u2")) >>
+ScopeR == << ScopeAll, ScopeEq(E("Doc", "d1")), ScopeIn(E("Doc", "d1")), ScopeIs("Doc"), ScopeIs("User"), ScopeIsIn("User", E("Group", "g1")),
+             ScopeEq(E("User", "u2")), ScopeIs("Group"), ScopeIsIn("Doc", E("Nosuch", "x")) >>
+ScopeA == << ScopeAll, ScopeEq(E("Action", "view")), ScopeEq(E("Action", "edit")), ScopeIn(E("Action", "all")),
+             ScopeInSet(<<E("Action", "view"), E("Action", "edit")>>), ScopeInSet(<<>>), ScopeEq(E("Action", "nosuch")),
+             ScopeInSet(<<E("Action", "edit"), E("Action", "all")>>) >>
+ScopeConds == << V(VTrue), Bin("gt", Acc(R, "age"), V(VInt(1))), Bin("contains", Acc(R, "labels"), Str(<<108>>)), Bin("eq", Acc(C, "k"), V(VInt(1))),
+                 Bin("eq", Acc(R, "owner"), P), Bin("gt", Acc(P, "opt"), V(VInt(1))), Bin("eq", Bin("getTag", R, T1), Str(<<120>>)) >>
+NScope == Len(ScopeP) * Len(ScopeR) * Len(ScopeA) * Len(ScopeConds)
+ScopePolicy(i) ==       \* i in 0 .. NScope - 1
+  LET a == i % Len(ScopeP)  b == (i \div Len(ScopeP)) % Len(ScopeR)  c == (i \div (Len(ScopeP) * Len(ScopeR))) % Len(ScopeA)
+      d == (i \div (Len(ScopeP) * Len(ScopeR) * Len(ScopeA))) % Len(ScopeConds) IN
+  [effect |-> "permit", annos |-> <<>>, principal |-> ScopeP[a + 1], action |-> ScopeA[c + 1], resource |-> ScopeR[b + 1],
+   conds |-> <<[kind |-> "when", body |-> ScopeConds[d + 1]]>>]
 Conds ==
   Flat(<< [i \in 1..NL |-> Bin("eq", Leaves[i], Leaves[i])],
           Flat([o \in DOMAIN BinOps |-> Flat([i \in 1..NL |-> [j \in 1..NL |-> Bin(BinOps[o], Leaves[i], Leaves[j])]])]),
           Flat([o \in DOMAIN UnOps |-> [i \in 1..NL |-> Un(UnOps[o], Leaves[i])]]),
           Flat([f \in DOMAIN Ext1 |-> [i \in 1..NL |-> Ext(Ext1[f], <<Leaves[i]>>)]]),
           Flat([f \in DOMAIN Ext2 |-> Flat([a \in DOMAIN Sel |-> [b \in DOMAIN Sel |-> Ext(Ext2[f], <<Leaves[Sel[a]], Leaves[Sel[b]]>>)]])]),
-          GuardMatrix \o LubForms \o Guarded >>)
+          InForms \o IsLikeForms \o CapForms \o GuardMatrix \o LubForms \o Guarded >>)
 
-NSpecial == Len(Guarded) + Len(GuardMatrix) + Len(LubForms)
+NSpecial == Len(Guarded) + Len(GuardMatrix) + Len(LubForms) + Len(CapForms) + Len(InForms) + Len(IsLikeForms)
 ActionScope(k) == CASE k = 1 -> ScopeEq(E("Action", "view")) [] k = 2 -> ScopeAll [] OTHER -> ScopeIn(E("Action", "all"))
 PolicyOf(i) ==
   [effect |-> "permit", annos |-> <<>>, principal |-> ScopeAll, action |-> ActionScope(IF i > Len(Conds) - NSpecial THEN 1 ELSE IF i % 7 = 0 THEN 2 ELSE IF i % 11 = 0 THEN 3 ELSE 1),
@@ -171,10 +244,12 @@ PolicyOf(i) ==
 
 VARIABLES idx, done
 vars == <<idx, done>>
-Init == idx \in { i \in DOMAIN Conds : i % Stride = 0 \/ i > Len(Conds) - NSpecial } /\ done = FALSE
+\* idx > 0: condition idx; idx <= 0: scope policy -idx
+Init == /\ done = FALSE
+        /\ idx \in { i \in DOMAIN Conds : i % Stride = 0 \/ i > Len(Conds) - NSpecial } \cup { -i : i \in { j \in 0..(NScope - 1) : j % ScopeStride = 0 } }
 Next == ~done /\ done' = TRUE /\ UNCHANGED idx
 Opts == [format |-> "TXT", charset |-> "UTF-8", openOptions |-> <<"WRITE", "CREATE", "APPEND">>]
-Emit == done => Serialize(ToJson([op |-> "typing", policy |-> PolicyOf(idx)]) \o "\n", "cases.ndjson", Opts).exitValue = 0
+Emit == done => Serialize(ToJson([op |-> "typing", policy |-> IF idx > 0 THEN PolicyOf(idx) ELSE ScopePolicy(-idx)]) \o "\n", "cases.ndjson", Opts).exitValue = 0
 \* the schema and the environments, emitted once (a table for the harness and the validating trace)
 EmitTable == (done /\ idx = CHOOSE i \in { j \in DOMAIN Conds : j % Stride = 0 \/ j > Len(Conds) - Len(Guarded) } : TRUE) =>
                Serialize(ToJson([op |-> "typingtable", schema |-> Schema, envs |-> EnvsW]) \o "\n", "table.ndjson", Opts).exitValue = 0
